@@ -39,11 +39,14 @@ def plan(tier, seed):
                 for qa in QA:
                     cases.append({"backend": be, "test_stat": ts, "dist": dist, "qA": qa, "dense": tier == "thorough"})
         cases.append({"backend": be, "objects": True})
+        if not be.endswith("32"):
+            for ts in ("qtilde", "q", "q0"):
+                cases.append({"backend": be, "reuse": True, "test_stat": ts})
     return dict(
         cases=cases, chunk=6,
         rule="one case = (backend/precision, test statistic, base distribution, q_A) x every q of the lattice (plus pred/at/succ of q_A; thorough: 40 more "
              "q around the qtilde seam) restricted to Phi arguments <= 37 sigma (12 at 32b); each is one real hypotest call with all return flags; "
-             "'objects' cases exercise AsymptoticTestStatDistribution directly; non-trivial = q_A-dependent p-values observed; distinct = distinct case",
+             "'objects' cases exercise AsymptoticTestStatDistribution directly; 'reuse' cases call one AsymptoticCalculator instance for every sequence (length <=3, repetition allowed) of three (mu, q, q_A) points and compare each call with the formulae (a calculator must not remember an earlier POI value); non-trivial = q_A-dependent p-values observed; distinct = distinct case",
         alphabet={"qA": QA, "q": Q, "test_stats": ["qtilde", "q", "q0"], "dists": ["normal", "clipped_normal"], "nsigma": NS, "backends": backends},
         bound={"max_sigma_64b": 37, "max_sigma_32b": 12},
         trusted_base=["mpmath ncdf (50 digits)", "mc/core/seams.ScriptedOptimizer"],
@@ -105,6 +108,8 @@ def eval_case(case):
             C.reset_backend()
         return dict(issues=issues, nontrivial=True, outcome=digest(dig), comparisons=ncmp)
 
+    if case.get("reuse"):
+        return reuse(case)
     ts, dist = case["test_stat"], case["dist"]
     qa = float(dtype(case["qA"]))
     qs = [float(dtype(x)) for x in Q] + [float(np.nextafter(dtype(qa), dtype(0))), qa, float(np.nextafter(dtype(qa), dtype(1e9)))]
@@ -182,3 +187,72 @@ def eval_case(case):
     finally:
         C.reset_backend()
     return dict(issues=issues, nontrivial=nontrivial, outcome=digest(dig), comparisons=ncmp)
+
+
+def reuse(case):
+    """histories on ONE calculator object: every sequence of length <=3 over three (mu, q, q_A) points; each call must give the reference values for its own point."""
+    import itertools
+
+    import pyhf
+    from pyhf.infer import calculators
+
+    be, ts = case["backend"], case["test_stat"]
+    eps = C.eps_of(be)
+    K = 64
+    issues, ncmp, dig = [], 0, []
+    pts = [(0.5, 0.5, 4.0), (1.0, 9.0, 1.0), (2.0, 2.71, 25.0)]
+    state = {}
+
+    def answer(kind):
+        fixed = kind["fixed_poi"]
+        if kind["data"] == "obs":
+            if fixed is None:
+                return [0.3, 0.0], 0.0
+            want = 0.0 if ts == "q0" else state["mu"]
+            return [fixed, 0.1], (state["q"] if fixed == want else 0.25)
+        if fixed is None:
+            return [1.0 if ts == "q0" else 0.0, 0.0], 0.0
+        return [fixed, 0.2], state["qA"]
+
+    opt = seams.ScriptedOptimizer(answer)
+    pyhf.set_backend(C.BACKENDS[be][0], opt, precision=C.BACKENDS[be][1])
+    tl = pyhf.tensorlib
+    f = lambda t: float(np.asarray(tl.tolist(t)))
+    try:
+        for dist in ("normal", "clipped_normal"):
+            for L_ in (1, 2, 3):
+                for seq in itertools.product(range(3), repeat=L_):
+                    pdf = seams.FakePdf(npars=2, poi_bounds=(-5, 10) if ts == "q" else (0, 10))
+                    calc = calculators.AsymptoticCalculator([1.0], pdf, test_stat=ts, calc_base_dist=dist)
+                    for step, i in enumerate(seq):
+                        mu, q, qa = pts[i]
+                        state.update(mu=mu, q=q, qA=qa)
+                        ctx = dict(backend=be, test_stat=ts, dist=dist, sequence=[list(pts[j]) for j in seq], step=step)
+                        try:
+                            t = calc.teststatistic(0.0 if ts == "q0" else mu)
+                            sb, b = calc.distributions(0.0 if ts == "q0" else mu)
+                            clsb, clb, cls = (f(x) for x in calc.pvalues(t, sb, b))
+                            esb, eb, es = calc.expected_pvalues(sb, b)
+                        except Exception as e:
+                            issues.append(C.issue(f"C07:reuse:{type(e).__name__}", f"calculator raised {e}"[:200], **ctx))
+                            break
+                        clsb_r, clb_r, zsb, zb, exp_r = reference(ts, dist, mp.mpf(q), mp.mpf(qa))
+                        ncmp += 3
+                        tol = lambda ref, z: K * eps * (1 + float(z) ** 2) * float(ref) + 1e-300
+                        if not abs(clsb - float(clsb_r)) <= tol(clsb_r, zsb) or not abs(clb - float(clb_r)) <= tol(clb_r, zb):
+                            issues.append(C.issue(f"C07:reuse:pvalues:{ts}", f"call {step + 1} on a reused calculator: CLsb/CLb {clsb!r}/{clb!r} expected {float(clsb_r)!r}/{float(clb_r)!r}", **ctx))
+                            break
+                        band = [f(x) for x in (esb if ts == "q0" else es)]
+                        bad = False
+                        for k_, (a_, bb, ne) in enumerate(exp_r):
+                            ref = a_ if ts == "q0" else a_ / bb
+                            if not abs(band[k_] - float(ref)) <= 2 * tol(ref, abs(ne) + mp.sqrt(qa)):
+                                issues.append(C.issue(f"C07:reuse:expected:{ts}", f"call {step + 1} on a reused calculator: expected band {band} does not belong to q_A={qa}", **ctx))
+                                bad = True
+                                break
+                        if bad:
+                            break
+                        dig.append(round(clsb, 9))
+    finally:
+        C.reset_backend()
+    return dict(issues=issues, nontrivial=True, outcome=digest([be, ts, len(dig)]), comparisons=ncmp)
